@@ -1,4 +1,3 @@
-from math import floor
 
 import numpy as np
 
@@ -380,7 +379,7 @@ class Position(object):
             )
 
         # Nothing to do if the transaction has no quantity
-        if int(floor(transaction.quantity)) == 0:
+        if transaction.quantity == 0:
             return
 
         # Update the current trade information. This validates the
